@@ -202,10 +202,25 @@ func ExportProfile(seed int64, out *Recorder, nOps int) *Chain {
 	cut := 1 + rng.Intn(len(blocks)-1) // export after blocks[cut-1]
 	r := NewNode(a.Genesis, a.Cfg.H0, a.Cfg.T0, "")
 	defer r.Close()
-	for _, b := range blocks[:cut] {
+	claimCut := base == "shield" && rng.Intn(2) == 0 // prefer an export taken while a claim holds a lock
+	for i, b := range blocks[:len(blocks)-1] {
+		if i >= cut && !claimCut {
+			break
+		}
 		if _, _, _, pi := r.Apply(b); pi != nil {
 			out.emit(D{"k": "xcmp", "h": b.Height, "phase": "replay", "diffs": []interface{}{"replay aborted: " + pi.Value}})
 			return a
+		}
+		if claimCut {
+			ctx := r.App.BaseApp.NewContext(true, tmproto.Header{ChainID: ChainID, Height: b.Height, Time: b.Time})
+			if r.App.VerifShieldKeeper().GetTotalClaimed(ctx).IsPositive() && rng.Intn(2) == 0 {
+				cut = i + 1
+				break
+			}
+			if i+2 >= len(blocks) {
+				cut = i + 1
+				break
+			}
 		}
 	}
 	last := blocks[cut-1]
